@@ -253,23 +253,15 @@ func normalise(cfg Config) (map[string][]byte, []string, *packages.Package) {
 			cssOrig = p
 		}
 	}
-	for round := 1; round <= 6; round++ {
-		edits, lg := norm.Plan(lib(pkgs), src, isAnchor, &counter)
-		for _, l := range lg {
-			if strings.HasPrefix(l, "not inlined") {
-				log = append(log, l)
-			}
-		}
-		if len(edits) == 0 {
-			break
-		}
+	// applyRound applies one round of edit groups, validated by the type checker (as a whole, else group by group)
+	applyRound := func(edits []norm.Edit, what string, round int) bool {
 		skip := map[int]bool{}
 		newSrc, used, lg2 := norm.Apply(src, edits, skip)
 		log = append(log, lg2...)
 		np, _, err := loadPkgs(cfg, cheap, newSrc)
 		if err != nil {
 			// find the groups that do not type-check, one at a time
-			log = append(log, fmt.Sprintf("normaliser: round %d did not type-check as a whole (%v); retrying site by site", round, err))
+			log = append(log, fmt.Sprintf("normaliser: %s round %d did not type-check as a whole (%v); retrying site by site", what, round, err))
 			good := map[int]bool{}
 			for _, g := range used {
 				try := map[int]bool{}
@@ -282,7 +274,7 @@ func normalise(cfg Config) (map[string][]byte, []string, *packages.Package) {
 				if _, _, e2 := loadPkgs(cfg, cheap, ts); e2 == nil {
 					good[g] = true
 				} else {
-					log = append(log, fmt.Sprintf("normaliser: site group %d left as a call (does not type-check inlined: %v)", g, e2))
+					log = append(log, fmt.Sprintf("normaliser: site group %d left as written (does not type-check rewritten: %v)", g, e2))
 				}
 			}
 			for _, u := range used {
@@ -291,13 +283,13 @@ func normalise(cfg Config) (map[string][]byte, []string, *packages.Package) {
 				}
 			}
 			if len(good) == 0 {
-				break
+				return false
 			}
 			newSrc, used, _ = norm.Apply(src, edits, skip)
 			np, _, err = loadPkgs(cfg, cheap, newSrc)
 			if err != nil {
 				log = append(log, "normaliser: giving up this round: "+err.Error())
-				break
+				return false
 			}
 		}
 		siteOf := map[int]string{}
@@ -305,9 +297,34 @@ func normalise(cfg Config) (map[string][]byte, []string, *packages.Package) {
 			siteOf[e.Group()] = e.Site
 		}
 		for _, u := range used {
-			log = append(log, fmt.Sprintf("inlined (round %d): %s", round, siteOf[u]))
+			log = append(log, fmt.Sprintf("%s (round %d): %s", what, round, siteOf[u]))
 		}
 		src, pkgs, changed = newSrc, np, true
+		return true
+	}
+	for round := 1; round <= 6; round++ {
+		edits, lg := norm.Plan(lib(pkgs), src, isAnchor, &counter)
+		for _, l := range lg {
+			if strings.HasPrefix(l, "not inlined") {
+				log = append(log, l)
+			}
+		}
+		if len(edits) == 0 {
+			break
+		}
+		if !applyRound(edits, "inlined", round) {
+			break
+		}
+	}
+	// state that was moved into a local struct (and handed to helpers by pointer) becomes scalar locals again
+	for round := 1; round <= 4; round++ {
+		edits, _ := norm.Scalarise(lib(pkgs), src, &counter)
+		if len(edits) == 0 {
+			break
+		}
+		if !applyRound(edits, "scalarised", round) {
+			break
+		}
 	}
 	if !changed {
 		return nil, log, cssOrig
